@@ -8,13 +8,20 @@ import I18n.Lemmas.LexRegex
 import I18n.Generated.PluralGrammar
 import I18n.Spec.PluralY
 /-!
-# C04 (evaluation clause) — plural expressions are evaluated exactly as C would
+# C04 — plural expressions are parsed and evaluated exactly as C/gettext would
 
-`Spec.mathEval` is lazy mathematical evaluation over ℤ that records every evaluated intermediate
-result.  In-range unsigned C arithmetic coincides with ℤ arithmetic, so the right-hand sides below
-*are* "the value C arithmetic yields when every evaluated intermediate result lies in `[0, 2^bits)`
-and no executed division has a zero divisor".  Stated for every width `bits ≥ 1` (the tool uses 32)
-about the `Evaluator` generated from lib/intexpr.py.
+Evaluation clause: `Spec.mathEval` is lazy mathematical evaluation over ℤ that records every evaluated intermediate
+result.  In-range unsigned C arithmetic coincides with ℤ arithmetic, so the right-hand sides below *are* "the value
+C arithmetic yields when every evaluated intermediate result lies in `[0, 2^bits)` and no executed division has a
+zero divisor".  Stated for every width `bits ≥ 1` (the tool uses 32) about the `Evaluator` generated from
+lib/intexpr.py.
+
+Parsing clause: three models of `gettext.parse_plural_expression`, proved to be one function —
+* the lexer interpreted from the dumped regular expressions (`PluralLex.lex`) = the hand-written lexer model
+  (`PluralParse.lex`) = plural.y's token language (`Spec.Tokens`);
+* rply's LR driver over the dumped LALR tables (`PluralLR.lrParse`) = the recursive-descent model
+  (`PluralParse.parseToks`) = the stratified C grammar (`Spec.D`, unambiguous), whose sentences are those of
+  plural.y's ambiguous grammar (`Spec.Amb`) = the context-free language of the dumped productions (`Spec.Gen`).
 -/
 namespace I18n.Props.C04
 open I18n I18n.Py I18n.Plural I18n.Spec I18n.Generated.Intexpr
@@ -306,6 +313,17 @@ theorem tooLong_never (len : Nat) : PluralParse.tooLong len = false := by
 theorem long_numeral_accepted :
     (match PluralParse.parse (List.replicate 4301 '1') with | .ok (.num _) => true | _ => false) = true := by
   decide +kernel
+
+/-- **The statement, end to end**: whenever `parse_plural_expression(s)` succeeds — `s` is then a sentence of plural.y
+    and the returned tree is the one C's grammar gives it — the returned callable at `n`, 32 bits, yields `v` iff lazy
+    C evaluation yields `v` with every evaluated intermediate result in `[0, 2^32)` and no executed division by
+    zero, and otherwise fails with an overflow or division-by-zero error. -/
+theorem accepted_evaluates_as_C (s : List Char) (e : Expr) (h : PluralParse.parse s = .ok e) (n : Int) :
+    (∃ ts, Spec.Tokens s ts ∧ Spec.Amb ts ∧ Spec.D 0 ts e) ∧
+    (∀ v, evalAt 32 n e = .ok v ↔ ∃ tr, mathEval n e = some (v, tr) ∧ InRange (2 ^ 32) tr) ∧
+    (∀ ex, evalAt 32 n e = .error ex → ex = .Overflow ∨ ex = .ZeroDivision) := by
+  obtain ⟨ts, ht, d⟩ := (parse_string_iff s e).1 h
+  exact ⟨⟨ts, ht, PluralParse.D_amb d, d⟩, fun v => eval_iff_C (by decide) n e v, fun ex => eval_error_kinds (by decide) n e ex⟩
 
 /-! Non-vacuity: laziness and failure, concretely. -/
 example : evalAt 32 0 (.boolop .and .name (.binop (.num 1) .div .name)) = .ok 0 := by rfl   -- 0 && 1/0
